@@ -139,7 +139,9 @@ pub fn check_write(ctx: &mut Ctx, list: &[REntry], codec: u8, start: Option<usiz
     let lib_entries = gen::to_lib_entries(list);
     let strategy = start.map(|s| WriteDirsOverflowStrategy::OnlyLeafPointers { start_size: Some(s) });
     let s0: usize = *rng.pick(&[0usize, 127, 1000]);
-    let prefill = vec![0x33u8; s0];
+    // the stream may already hold (stale) bytes behind the write position: a re-used buffer, a file that was not truncated
+    let stale: usize = *rng.pick(&[0usize, 0, 100, 40_000]);
+    let prefill = vec![0x33u8; s0 + stale];
     let api = if asyncm { "util::write_directories_async" } else { "util::write_directories" };
     let m = mat(list, codec, start, asyncm);
     let (res, data, pos, nops) = if asyncm {
@@ -313,7 +315,8 @@ pub fn check_write(ctx: &mut Ctx, list: &[REntry], codec: u8, start: Option<usiz
 
 pub fn run(ctx: &mut Ctx) {
     let mut case = 0u64;
-    let starts: [Option<usize>; 7] = [None, Some(1), Some(2), Some(7), Some(4096), Some(1_000_000), Some(33)];
+    // (the last two: "one leaf for everything", the natural extreme values)
+    let starts: [Option<usize>; 9] = [None, Some(1), Some(2), Some(7), Some(4096), Some(1_000_000), Some(33), Some(usize::MAX), Some(usize::MAX / 2 + 1)];
     // ---- exact size steering for Compression::None around the window (16257, 16384]
     for target in [16256usize, 16257, 16258, 16300, 16383, 16384, 16385, 127, 128] {
         for rep in 0..ctx.n(2, 12) {
@@ -542,7 +545,7 @@ pub fn run(ctx: &mut Ctx) {
                 _ => rng.usize(2000, ctx.n(10_000, 100_000) as usize),
             };
             let list = tile_entries(&mut rng, cnt, i % 3 != 0);
-            let mut st = starts[((i / 4) % 7) as usize];
+            let mut st = starts[((i / 4) % 9) as usize];
             // start size 1 or 2 on huge lists is quadratic in the codec: keep those lists moderate
             if cnt > 8000 && matches!(st, Some(1) | Some(2)) {
                 st = Some(7);
